@@ -350,12 +350,146 @@ def _slice_bounds_z3():
     return (nx, ny, cx, cy), bounds, only_ones and not aug, len(stores)
 
 
+def _progress_query():
+    """IEEE-754 double semantics of the binary search (translated from the current source): if an iteration neither breaks nor changes
+    (slope_min, slope_max) while `slope_min < slope_max` still holds, every later iteration repeats it - the loop never ends.
+    returns (verdict, model dict or None, smt2 text)"""
+    import z3
+    from sigpy.mri import samp
+    tree = ast.parse(textwrap.dedent(inspect.getsource(samp.poisson)))
+    loop = None
+    for node in ast.walk(tree):
+        if isinstance(node, ast.While) and ast.unparse(node.test).replace(" ", "") == "slope_min<slope_max":
+            loop = node
+    if loop is None:
+        raise RuntimeError("binary-search loop not found")
+    F = z3.Float64()
+    rm = z3.RNE()
+    smin, smax = z3.FP("slope_min", F), z3.FP("slope_max", F)
+    env = {"slope_min": smin, "slope_max": smax}
+
+    def tr(e):
+        if isinstance(e, ast.Constant) and isinstance(e.value, (int, float)):
+            return z3.FPVal(float(e.value), F)
+        if isinstance(e, ast.Name) and e.id in env:
+            return env[e.id]
+        if isinstance(e, ast.BinOp):
+            a, b = tr(e.left), tr(e.right)
+            if isinstance(e.op, ast.Add):
+                return z3.fpAdd(rm, a, b)
+            if isinstance(e.op, ast.Sub):
+                return z3.fpSub(rm, a, b)
+            if isinstance(e.op, ast.Mult):
+                return z3.fpMul(rm, a, b)
+            if isinstance(e.op, ast.Div):
+                return z3.fpDiv(rm, a, b)
+        raise ValueError("not an expression over the slope variables: %s" % ast.unparse(e))
+
+    def trb(e):
+        if isinstance(e, ast.BoolOp):
+            vs = [trb(v) for v in e.values]
+            return z3.Or(vs) if isinstance(e.op, ast.Or) else z3.And(vs)
+        if isinstance(e, ast.UnaryOp) and isinstance(e.op, ast.Not):
+            return z3.Not(trb(e.operand))
+        if isinstance(e, ast.Compare) and len(e.ops) == 1:
+            a, b = tr(e.left), tr(e.comparators[0])
+            op = e.ops[0]
+            return {ast.Eq: z3.fpEQ, ast.NotEq: z3.fpNEQ, ast.Lt: z3.fpLT, ast.LtE: z3.fpLEQ, ast.Gt: z3.fpGT, ast.GtE: z3.fpGEQ}[type(op)](a, b)
+        raise ValueError("not a condition over the slope variables")
+    no_break = []          # conditions (over the slope variables only) under which the body breaks: assumed false
+    finals = []            # possible (slope_min', slope_max') after the body
+    for st in loop.body:
+        if isinstance(st, ast.Assign) and len(st.targets) == 1 and isinstance(st.targets[0], ast.Name):
+            try:
+                env[st.targets[0].id] = tr(st.value)
+            except ValueError:
+                pass
+        elif isinstance(st, ast.If):
+            has_break = any(isinstance(n, ast.Break) for n in ast.walk(st))
+            assigns = [n for n in ast.walk(st) if isinstance(n, ast.Assign) and isinstance(n.targets[0], ast.Name)
+                       and n.targets[0].id in ("slope_min", "slope_max")]
+            if has_break and not assigns:
+                try:
+                    no_break.append(z3.Not(trb(st.test)))
+                except (ValueError, KeyError):
+                    pass       # depends on the mask: may or may not break - a run that never breaks there is the non-terminating one
+            elif assigns:
+                for branch in (st.body, st.orelse):
+                    e2 = dict(env)
+                    for n in branch:
+                        if isinstance(n, ast.Assign) and isinstance(n.targets[0], ast.Name):
+                            e2[n.targets[0].id] = tr(n.value)
+                    finals.append((e2["slope_min"], e2["slope_max"]))
+    if not finals:
+        raise RuntimeError("no update of slope_min / slope_max found in the loop body")
+    pre = z3.And(z3.Not(z3.fpIsNaN(smin)), z3.Not(z3.fpIsNaN(smax)), z3.Not(z3.fpIsInf(smax)), z3.fpGEQ(smin, z3.FPVal(0.0, F)),
+                 z3.fpLT(smin, smax), z3.fpLEQ(smax, z3.FPVal(1048576.0, F)))
+    stuck = z3.Or([z3.And(z3.fpEQ(a, smin), z3.fpEQ(b, smax), z3.fpLT(a, b)) for a, b in finals])
+    sv = z3.Solver()
+    sv.set("timeout", 300000)
+    sv.add(pre, *no_break)
+    sv.add(stuck)
+    r = str(sv.check())
+    model = None
+    if r == "sat":
+        m = sv.model()
+
+        def val(v):
+            x = m.eval(v, model_completion=True)
+            return float(eval(str(x).replace("*(2**", "*(2.0**"))) if "2**" in str(x) else float(str(x))
+        model = {"slope_min": val(smin), "slope_max": val(smax)}
+    return r, model, sv.to_smt2()
+
+
+def _replay_progress(model):
+    """(1) the model's doubles in real float arithmetic; (2) an end-to-end witness: a request that cannot be met must end in ValueError"""
+    import os
+    import subprocess
+    import sys
+    a, b = model["slope_min"], model["slope_max"]
+    mid = (b + a) / 2
+    arith = a < b and (mid == a or mid == b)
+    code = "import sigpy.mri as m\ntry:\n    m.poisson((32, 32), 12, seed=1, crop_corner=False)\n    print('RETURNED')\nexcept ValueError:\n    print('RAISED')\n"
+    env = dict(os.environ)
+    env.pop("NUMBA_DISABLE_JIT", None)
+    try:
+        r = subprocess.run([sys.executable, "-c", code], capture_output=True, text=True, env=env, timeout=90)
+        hang = False
+        outcome = r.stdout.strip()[-20:]
+    except subprocess.TimeoutExpired:
+        hang, outcome = True, "no answer within 90 s"
+    return arith and hang, "midpoint of (%r, %r) is %r (no progress: %s); poisson((32,32), 12, seed=1, crop_corner=False): %s" % (a, b, mid, arith, outcome)
+
+
 def extra_phases(tier, seed, results):
-    """z3 (linear integer/real arithmetic, unbounded sizes): the calibration block written by _poisson"""
+    """z3 (linear integer/real arithmetic, unbounded sizes): the calibration block written by _poisson; z3 (floating point): progress of the search"""
     import time
     import z3
     t0 = time.time()
     out = {"violations": [], "harness_errors": [], "inconclusive": [], "samples": [], "summary": {}}
+    try:
+        pr, pmodel, psmt = _progress_query()
+        out["samples"].append({"cfg": "binary-search-progress", "obligation": "every_iteration_breaks_or_shrinks_the_interval", "verdict": pr,
+                               "path_condition": ["0 <= slope_min < slope_max <= 2^20 (IEEE doubles)"], "negated_goal_smt2": psmt[:600]})
+        if pr == "sat":
+            ok, msg = _replay_progress(pmodel)
+            if ok:
+                import json
+                import os
+                from symsig import runner
+                os.makedirs(runner.REPLAY_DIR, exist_ok=True)
+                path = os.path.join(runner.REPLAY_DIR, "C18_progress.json")
+                with open(path, "w") as fh:
+                    json.dump({"property": "C18", "module": "props.c18", "extra": "progress", "vals": pmodel,
+                               "obligation": "every_iteration_breaks_or_shrinks_the_interval"}, fh, indent=1)
+                out["violations"].append(("binary-search-progress", "every_iteration_breaks_or_shrinks_the_interval", path, "REPRODUCED: " + msg))
+            else:
+                out["harness_errors"].append(("binary-search-progress", "floating-point model did not reproduce: " + msg))
+        elif pr != "unsat":
+            out["inconclusive"].append(("binary-search-progress", "solver %s" % pr))
+        out["summary"]["binary_search_progress (z3 QF_FP, doubles)"] = pr
+    except Exception as e:      # noqa
+        out["harness_errors"].append(("binary-search-progress", "cannot translate the binary search of poisson: %r" % (e,)))
     try:
         (nx, ny, cx, cy), b, only_ones, nstores = _slice_bounds_z3()
     except Exception as e:      # noqa
@@ -409,16 +543,20 @@ def extra_phases(tier, seed, results):
             out["violations"].append(("poisson-stores", "mask_stores_are_ones", "n/a", "REPRODUCED: " + msg))
         else:
             out["harness_errors"].append(("poisson-stores", "a store into mask is not the constant 1 (structural) but the sampled masks are binary: " + msg))
-    out["evaluations"] = nq + 1
+    out["evaluations"] = nq + 2
     out["distinct_nontrivial"] = nq
-    out["summary"] = {"calibration_slice_queries (z3, LIA/LRA, all n >= 1, 0 <= c <= n)": "%d, reachability twin (false claim extent = calib + 1 refuted: %s)" % (nq, twin),
-                      "stores_into_mask_in__poisson": "%d, all the constant 1: %s" % (nstores, only_ones), "extra_phase_s": round(time.time() - t0, 2)}
+    out["summary"].update({"calibration_slice_queries (z3, LIA/LRA, all n >= 1, 0 <= c <= n)": "%d, reachability twin (false claim extent = calib + 1 refuted: %s)" % (nq, twin),
+                      "stores_into_mask_in__poisson": "%d, all the constant 1: %s" % (nstores, only_ones), "extra_phase_s": round(time.time() - t0, 2)})
     if twin != "sat":
         out["harness_errors"].append(("calib-slice", "reachability twin: a false extent claim was not refuted (%s)" % twin))
     return out
 
 
 def replay_extra(rec):
+    if rec.get("extra") == "progress":
+        ok, msg = _replay_progress(rec["vals"])
+        print(("REPRODUCED" if ok else "NOT-REPRODUCED") + " property=C18 binary search of poisson: " + msg)
+        return 1 if ok else 0
     ok, msg = _replay_calib(rec["vals"])
     print(("REPRODUCED" if ok else "NOT-REPRODUCED") + " property=C18 calibration block of _poisson for %s: %s" % (rec["vals"], msg))
     return 1 if ok else 0
